@@ -3,6 +3,7 @@ CONSTANTS
   Conns <- TraceConns
   MaxReq <- TraceMaxReq
   NoConn = 0
+  Listeners <- TraceListeners
   CloseOnShutdown <- TraceCOS
   FlushOnStop = TRUE
   IdleWhenDrained = TRUE
